@@ -35,3 +35,17 @@ func firstDiff(a, b []byte) int {
 	}
 	return -1
 }
+
+func stripDigits(s string) string {
+	o := make([]byte, 0, len(s))
+	for i := 0; i < len(s); i++ {
+		if s[i] >= '0' && s[i] <= '9' {
+			continue
+		}
+		o = append(o, s[i])
+	}
+	if len(o) > 80 {
+		o = o[:80]
+	}
+	return string(o)
+}
